@@ -68,7 +68,7 @@ def walk_tree(case):
         try:
             tree = ceos_alos2.open_alos2(url, backend_options=dict(use_cache=False, records_per_chunk=case.get("rpc", 2)))
         except BaseException as e:  # noqa: B902
-            if not case.get("blank_codes"):
+            if not case.get("blank_codes") and not (case.get("may_refuse") and isinstance(e, (ValueError, NotImplementedError))):
                 res["bad"].append(("open", f"{type(e).__name__}: {str(e)[:150]}"))
             res["refused"] = True
             return res
@@ -183,6 +183,10 @@ def body(chk):
                       summary_extra=['Brs_BrowseImageFileName="BRS-HH-ALOS2014410740-140829-WBDR1.5RUD.jpg"', 'Brs_BrowseBitPixel="8"', 'Xyz_Unknown=""']))
     for ri, recname in enumerate(["attitude", "dataset_summary", "platform_position", "facility_related_data_5", "radiometric_data", "data_quality_summary"]):
         cases.append(dict(level=("1.5", "1.1")[ri % 2], images=(("HH", None, 2, 2),), seed=chk.seed + 20 + ri, k=None, fs="local", blank_codes=recname))
+    # level 1.0 (type code CI*2, signal data records): the documentation says "for now, level 1.1, 1.5, and 3.1 only" and the pinned reader
+    # refuses the type code -- nothing to judge then; a reader that RETURNS a tree for such a product is held to the property like any other
+    for j, images in enumerate(((("HH", None, 4, 3),), (("HH", None, 3, 2), ("HV", None, 3, 2)))):
+        cases.append(dict(level="1.0", images=images, seed=chk.seed + 50 + j, k=None, fs=("local", "vtrace")[j], may_refuse=True))
     lc.prepare_layouts(cases)
     results = checklib.pmap(walk_tree, cases, chk.scratch)
     nv = na = 0
@@ -197,6 +201,9 @@ def body(chk):
                 continue
             seen.add(key)
             chk.violation(f"typing:{key}", f"{msg}   [{c['level']}, plan {c.get('k')}]", {"case": c})
+    refused10 = sum(1 for r in results if r["case"].get("may_refuse") and r.get("refused"))
+    if refused10:
+        chk.note(f"level-1.0 products (CI*2): {refused10} refused by the reader (documented: levels 1.1 / 1.5 / 3.1 only) -- not judged")
     chk.traces(len(results))
     chk.sample({"product": results[0]["case"]["level"], "variables_checked": results[0]["n_vars"], "attributes_checked": results[0]["n_attrs"],
                 "problems": results[0]["bad"][:3]})
